@@ -37,6 +37,14 @@ class _NP:
     def isnan(x):
         return False  # A-REAL
 
+    @staticmethod
+    def sqrt(x):
+        return x.sqrt()
+
+    @staticmethod
+    def abs(x):
+        return abs(x)
+
 
 class _Log:
     def error(self, *a, **k):
@@ -58,8 +66,13 @@ def _spec_value(x, A, b):
 
 
 def _consistent(e, A, b):
+    """the energy's value, gradient and (memoised) gradient norm belong to its position"""
     g = A(e.position) if b is None else A(e.position) - b
-    return e.gradient.eq(g) & (e.value == _spec_value(e.position, A, b))
+    ok = e.gradient.eq(g) & (e.value == _spec_value(e.position, A, b))
+    if e._gradnorm is not None:     # Energy.gradient_norm returns the memoised value: it must be |gradient|
+        n = e._gradnorm
+        ok = ok & (n >= 0) & (n * n == g.s_vdot(g).real)
+    return ok
 
 
 # ---------------------------------------------------------------------------
